@@ -21,6 +21,7 @@ from __future__ import absolute_import
 import copy
 
 from mingus.containers.mt_exceptions import UnexpectedObjectError
+from mingus.containers.note_container import NoteContainer
 
 
 class Composition(object):
@@ -75,6 +76,12 @@ class Composition(object):
 
         Everything container.Track supports in __add__ is accepted.
         """
+        if not hasattr(note, "bar"):
+            # A note that one of the selected tracks cannot play is refused
+            # before it is placed anywhere, not half way through them
+            checked = NoteContainer(note) if isinstance(note, list) else note
+            for n in self.selected_tracks:
+                self.tracks[n].check_range(checked)
         for (i, n) in enumerate(self.selected_tracks):
             # Every track after the first gets objects of its own: a Bar or
             # NoteContainer shared between tracks would grow in all of them
